@@ -88,6 +88,12 @@ OMEN_MODELS = [
      'cp': {'aa': 1, 'ab': 0, 'ac': 2, 'ba': 0, 'bc': 1, 'ca': 0, 'cc': 3}, 'ln': [5, 1, 0, 2]},
     {'ngram': 3, 'alphabet': ['a', 'b'], 'ip': {'aa': 0, 'ab': 1, 'ba': 1, 'bb': 2}, 'ep': {},
      'cp': {'aaa': 1, 'aab': 0, 'aba': 0, 'abb': 2, 'baa': 0, 'bab': 1, 'bba': 0, 'bbb': 1}, 'ln': [10, 10, 0, 1, 2]},
+    # transitions at the smoothing cap (level 10): the trainer lists levels up to 18, and all Markov pre-terminals of a grammar share one
+    # OMEN optimizer, so sub-problems with more than 10 levels left are solved before and after the ones with exactly 10 left
+    {'ngram': 2, 'alphabet': ['a', 'b', 'c'], 'ip': {'a': 0, 'b': 1, 'c': 3}, 'ep': {}, 'top_level': 16,
+     'cp': {'aa': 0, 'ab': 1, 'ac': 10, 'ba': 0, 'bb': 2, 'bc': 10, 'ca': 1, 'cb': 0, 'cc': 10}, 'ln': [10, 0, 0, 1]},
+    {'ngram': 3, 'alphabet': ['a', 'b'], 'ip': {'aa': 0, 'ab': 1, 'ba': 10, 'bb': 2}, 'ep': {}, 'top_level': 14,
+     'cp': {'aaa': 10, 'aab': 0, 'aba': 0, 'abb': 10, 'baa': 0, 'bab': 1, 'bba': 10, 'bbb': 0}, 'ln': [10, 10, 0, 1, 0]},
 ]
 
 
@@ -183,7 +189,7 @@ def run_markov(tier, acc):
     G = tree.imp('lib_guesser.pcfg_grammar').PcfgGrammar
     root = tree.mkdtemp('pcfgmc-c04m-')
     for mi, model in enumerate(OMEN_MODELS):
-        levels = sorted({lvl for _, lvl in R.omen_strings(model) if 1 <= lvl <= 10})
+        levels = sorted({lvl for _, lvl in R.omen_strings(model) if 1 <= lvl <= model.get('top_level', 10)})
         variants = [('distinct', None)]
         if len(levels) >= 2:
             # two levels with exactly equal probability share a group (what the trainer writes for empty levels: 0.0)
